@@ -41,4 +41,35 @@ def foundRemove (heap : List Found) (r : Nat) (s : Nat) : R (List Found) :=
 def dictDel {κ ν : Type} [DecidableEq κ] (d : List (κ × ν)) (k : κ) : R (List (κ × ν)) :=
   if dHas d k then .ok (dDel d k) else .error .key
 
+/-- `ScaffoldNamer` as the Python object has it (`__init__` of build_utils.py): every attribute with the Python type it can hold
+    (`None` = `none`).  References to OverlapResults are store indices.  The hand-written model's `Namer` stores some of these differently
+    (a rank that is never None as `Int`, counters as `Nat`); the tie theorems relate the two. -/
+structure SrcNamer where
+  autosome_prefix : Str
+  current_scaffold_name : Option Str := none
+  current_rank : Option Int := none
+  current_haplotype : Option Str := none
+  haplotig_n : Int := 0
+  haplotig_scaffolds : List Nat := []
+  primary_haplotype : Option Str := none
+  target_tags : Bool := false
+  unloc_n : Int := 0
+  unloc_scaffolds : List Nat := []
+  haplotype_lc_dict : List (Str × Str) := []
+  deriving Repr, DecidableEq
+
+/-- Python truthiness of a `str`-or-None value: None and "" are false -/
+def strTruthy : Option Str → Bool
+  | some (_ :: _) => true
+  | _ => false
+
+/-- `str(x)` / f-string rendering of a `str`-or-None value (`None` prints as "None") -/
+def optStrText : Option Str → Str
+  | some s => s
+  | none => "None".toList
+
+/-- writes of the labelling attributes of an OverlapResult reached through a reference -/
+def setLabel (store : List Res) (sid : Nat) (f : OverlapResult → OverlapResult) : List Res :=
+  updRes store sid (f (getRes store sid))
+
 end AgpTpf.PyRt
